@@ -69,6 +69,16 @@ type hist struct {
 	handles []*handle
 	nh      int
 	stepNo  int
+	// maxIdx: the MaxIdx option passed with every call of the history (1024: none)
+	maxIdx int
+	// big: the history started with a list of more than 1024 elements at bigName
+	big     bool
+	bigName string
+	// stepClass: signature class of the operation of the current step, for the
+	// deviations seen right after it ("" = by the deviation itself)
+	stepClass string
+	// list elements moved up by a prepending Merge (number of the last such step)
+	shifted map[*model.Node]int
 	// containers a Merge merged into in place (number of the last such step) / nil nodes that came from nil merged onto nil
 	mergedInto map[*model.Node]int
 	nilOnNil   map[*model.Node]bool
@@ -84,13 +94,20 @@ type hist struct {
 
 func (h *hist) fail(sig, format string, a ...interface{}) {
 	h.failed = true
-	h.res.Violate(sig, "%s; sep=%q history=[%s]", fmt.Sprintf(format, a...), h.sep, strings.Join(h.log, "; "))
+	h.res.Violate(sig, "%s; sep=%q%s history=[%s]", fmt.Sprintf(format, a...), h.sep, h.optNote(), strings.Join(h.log, "; "))
+}
+
+func (h *hist) optNote() string {
+	if h.maxIdx != 1024 {
+		return fmt.Sprintf(" MaxIdx(%d)", h.maxIdx)
+	}
+	return ""
 }
 
 // note reports a deviation of an observer that leaves the model and the
 // library in step: the history goes on (other deviations stay reachable).
 func (h *hist) note(sig, format string, a ...interface{}) {
-	h.res.Violate(sig, "%s; sep=%q history=[%s]", fmt.Sprintf(format, a...), h.sep, strings.Join(h.log, "; "))
+	h.res.Violate(sig, "%s; sep=%q%s history=[%s]", fmt.Sprintf(format, a...), h.sep, h.optNote(), strings.Join(h.log, "; "))
 }
 
 func (h *hist) addr() (string, int) {
@@ -127,7 +144,7 @@ func smallTree(r *rand.Rand) *model.Node {
 func (check) Run(seed int64, tier string, idx int, verbose bool) harness.Result {
 	res := harness.NewR(idx)
 	r := rand.New(rand.NewSource(harness.Mix(seed, "C12", idx)))
-	h := &hist{res: res, r: r, verbose: verbose, mergedInto: map[*model.Node]int{}, nilOnNil: map[*model.Node]bool{}, wasNil: map[*model.Node]bool{}, emptied: map[*model.Node]bool{}}
+	h := &hist{res: res, r: r, verbose: verbose, mergedInto: map[*model.Node]int{}, nilOnNil: map[*model.Node]bool{}, wasNil: map[*model.Node]bool{}, emptied: map[*model.Node]bool{}, shifted: map[*model.Node]int{}, maxIdx: 1024}
 	switch r.Intn(8) {
 	case 0, 1:
 	case 2:
@@ -140,9 +157,25 @@ func (check) Run(seed int64, tier string, idx int, verbose bool) harness.Result 
 		h.sep = "."
 		h.o = []ucfg.Option{ucfg.PathSep(".")}
 	}
+	if r.Intn(5) == 0 {
+		// a lowered maximum index, passed with every call: indices above it can
+		// not make a list jump, but appending and overwriting stay possible.
+		// 2 and 3 are not below any index name of the address pool, so the
+		// names parse as without the option.
+		h.maxIdx = 2 + r.Intn(3)/2
+		h.o = append(h.o, ucfg.MaxIdx(int64(h.maxIdx)))
+		res.Ev("histories_with_lowered_maxidx", 1)
+	}
 	h.root = &handle{c: ucfg.New(), n: &model.Node{Kind: model.KSub}, desc: "root"}
 	n := 5 + r.Intn(36)
+	big := r.Intn(48) == 0 && h.maxIdx == 1024
 	panicked, pv, where := harness.Safe(func() {
+		if big {
+			h.bigList()
+			if n > 12 {
+				n = 12
+			}
+		}
 		for s := 0; s < n && !h.failed; s++ {
 			h.step()
 		}
@@ -154,10 +187,10 @@ func (check) Run(seed int64, tier string, idx int, verbose bool) harness.Result 
 		res.Key(strings.Join(h.log, ";") + h.sep)
 	}
 	if idx < 2 {
-		res.Sample = map[string]interface{}{"sep": h.sep, "history": h.log}
+		res.Sample = map[string]interface{}{"sep": h.sep, "maxidx": h.maxIdx, "history": h.log}
 	}
 	if verbose {
-		fmt.Printf("sep=%q\n%s\nfinal model: %s\n", h.sep, strings.Join(h.log, "\n"), h.root.n)
+		fmt.Printf("sep=%q maxidx=%d\n%s\nfinal model: %s\n", h.sep, h.maxIdx, strings.Join(h.log, "\n"), h.root.n)
 	}
 	return res.Done()
 }
@@ -171,17 +204,28 @@ func (h *hist) step() {
 		t = targets[1+r.Intn(len(targets)-1)]
 	}
 	name, idx := h.addr()
+	h.stepClass = ""
+	if h.big && r.Intn(2) == 0 {
+		name, idx = h.bigName, -1 // the long list
+	}
+	if r.Intn(4) == 0 || ((h.big || h.maxIdx != 1024) && r.Intn(3) == 0) {
+		// exactly at the end of the list addressed by name (the plain append)
+		if l, ok := h.lenAt(t.n, name); ok {
+			idx = l
+		}
+	}
 	fs := model.ParsePath(name, idx, h.sep)
 	// what a mutation through a child handle must show through the parent
 	var mutated, firstViaNil bool
 	var mustHave [][]model.Fld
-	op := r.Intn(12)
+	op := r.Intn(13)
 	switch {
 	case op < 6: // set
 		var err error
 		var val *model.Node
 		var what string
-		switch r.Intn(8) {
+		var ownRoot, nilArg bool
+		switch r.Intn(10) {
 		case 0:
 			x := int64(r.Intn(100) - 50)
 			err = t.c.SetInt(name, idx, x, h.o...)
@@ -211,15 +255,40 @@ func (h *hist) step() {
 				return
 			}
 			src := lv[1+r.Intn(len(lv)-1)]
-			if src.c == t.c || model.Reachable(src.n, t.n) {
-				return // never make a config its own descendant
+			if src.detached {
+				return
 			}
-			err = t.c.SetChild(name, idx, src.c, h.o...)
+			if src == t || model.Reachable(src.n, t.n) {
+				// the receiver itself or a config it is a part of: what it
+				// holds NOW is stored (a tree holds a finite snapshot)
+				h.stepClass = "setchild-of-receiver-or-ancestor"
+				h.res.Ev("setchild_of_receiver_or_ancestor_handle", 1)
+			}
 			val, what = h.copyTree(src.n), fmt.Sprintf("SetChild(handle %s=%s)", src.desc, src.n)
+			err = t.c.SetChild(name, idx, src.c, h.o...)
 			if src.n.Kind == model.KNil {
 				val = &model.Node{Kind: model.KSub} // the config seen through a nil is an empty one
 			}
 			h.res.Ev("setchild_of_parented_handle", 1)
+		case 8:
+			// the root itself, into itself or into one of its own descendants
+			ownRoot = true
+			h.stepClass = "setchild-of-receiver-or-ancestor"
+			h.res.Ev("setchild_of_own_root", 1)
+			val, what = h.copyTree(h.root.n), fmt.Sprintf("SetChild(the root=%s)", h.root.n)
+			h.log = append(h.log, fmt.Sprintf("%s.%s@(%q,%d)...", t.desc, what, name, idx))
+			err = t.c.SetChild(name, idx, h.root.c, h.o...)
+			h.log = h.log[:len(h.log)-1]
+		case 9:
+			// no config at all: an error or a nil setting, never a panic
+			nilArg = true
+			val, what = model.Nil(), "SetChild(nil)"
+			h.res.Ev("setchild_of_nil_config", 1)
+			if p, pv, _ := harness.Safe(func() { err = t.c.SetChild(name, idx, nil, h.o...) }); p {
+				h.log = append(h.log, fmt.Sprintf("%s.%s@(%q,%d)", t.desc, what, name, idx))
+				h.fail("panic:SetChild:nil-config", "panic %q", pv)
+				return
+			}
 		default:
 			sub := smallTree(r)
 			sc, e := ucfg.NewFrom(sub.ToGo())
@@ -240,6 +309,27 @@ func (h *hist) step() {
 		}
 		h.res.Eval(1)
 		h.log = append(h.log, fmt.Sprintf("%s.%s@(%q,%d)", t.desc, what, name, idx))
+		if nilArg && err != nil {
+			// refused: nothing may have changed (the frame comparison below)
+			h.res.SetAdd("op", "set-rejected")
+			break
+		}
+		if idx >= 0 && idx > h.maxIdx {
+			if l := h.holderLen(t.n, fs); idx > l {
+				// above the maximum index a list can not be made to jump; whether
+				// such a write is refused (nothing changes) or pads is C07/C20's
+				// business, the history follows the library
+				h.res.Ev("jumps_above_maxidx", 1)
+				if err != nil {
+					h.res.SetAdd("op", "set-rejected")
+					break
+				}
+			} else if idx == l {
+				h.res.Ev("appends_at_end_above_maxidx:"+map[bool]string{true: "default-1024", false: "lowered"}[h.maxIdx == 1024], 1)
+			} else {
+				h.res.Ev("overwrites_above_maxidx", 1)
+			}
+		}
 		viaNil := t.n.Kind == model.KNil
 		if viaNil {
 			t.n.Kind = model.KSub // the nil viewed by t becomes the container written to
@@ -254,18 +344,31 @@ func (h *hist) step() {
 			}
 		}
 		if ok != (err == nil) {
-			h.fail("set-outcome", "write outcome: model ok=%v, library err=%v", ok, err)
+			sig := "set-outcome"
+			if ok && idx >= 0 && idx > h.maxIdx {
+				sig = "write-at-or-below-the-end-refused-above-maxidx"
+			}
+			h.fail(sig, "write outcome: model ok=%v, library err=%v", ok, err)
 			return
 		}
 		if p := obs.TypedErrorProblem(err); p != "" {
 			h.res.Violate("untyped-error", "%s", p)
+		}
+		if ok && (ownRoot || h.stepClass != "") {
+			// what is stored must be a snapshot, not the config itself: the
+			// question is asked by identity, because every read that needs a
+			// path would never return from a config that is its own descendant
+			if ch, cerr := t.c.Child(name, idx, h.o...); cerr == nil && (ch == h.root.c || ch == t.c) {
+				h.fail("setchild-of-receiver-or-ancestor-links-the-config-itself", "the config stored at (%q,%d) is the %s itself: the tree is its own descendant now", name, idx, map[bool]string{true: "root", false: "receiver"}[ch == h.root.c])
+				return
+			}
 		}
 		if ok {
 			h.muts++
 			mutated, mustHave = true, [][]model.Fld{fs}
 			h.res.SetAdd("op", "set")
 			// read back through the equivalent spelling
-			if h.sep != "" && idx >= 0 && name != "" {
+			if h.sep != "" && idx >= 0 && idx <= h.maxIdx && name != "" {
 				alt := name + h.sep + strconv.Itoa(idx)
 				h.probeAt(t, alt, -1, "readback-equivalent-spelling")
 			}
@@ -294,10 +397,47 @@ func (h *hist) step() {
 				}
 			}
 		}
-	case op < 10: // merge (default policy)
-		sub := smallTree(r)
-		h.log = append(h.log, fmt.Sprintf("%s.Merge(%s)", t.desc, sub))
-		err := t.c.Merge(sub.ToGo())
+	case op < 11: // merge
+		pol, polOpt, polName := model.PDefault, []ucfg.Option(nil), ""
+		switch r.Intn(8) {
+		case 0:
+			pol, polOpt, polName = model.PAppend, []ucfg.Option{ucfg.AppendValues}, ", AppendValues"
+		case 1, 2:
+			pol, polOpt, polName = model.PPrepend, []ucfg.Option{ucfg.PrependValues}, ", PrependValues"
+		case 3:
+			pol, polOpt, polName = model.PArrReplace, []ucfg.Option{ucfg.ReplaceArrValues}, ", ReplaceArrValues"
+		case 4:
+			pol, polOpt, polName = model.PReplace, []ucfg.Option{ucfg.ReplaceValues}, ", ReplaceValues"
+		}
+		h.res.SetAdd("merge_policy", pol.String())
+		var sub *model.Node
+		var err error
+		lv := h.live()
+		if src := lv[r.Intn(len(lv))]; r.Intn(3) == 0 && src.n.IsSub() && !src.detached && (src != t || r.Intn(4) == 0) {
+			// the operand is a config of the history itself: the root or a child
+			// handle, possibly the target, a part of it or a config holding it.
+			// A plain tree merges what the operand holds when Merge is called.
+			rel := "disjoint"
+			switch {
+			case src == t:
+				rel = "self"
+			case model.Reachable(src.n, t.n):
+				rel = "ancestor"
+			case model.Reachable(t.n, src.n):
+				rel = "descendant"
+			}
+			if rel == "ancestor" || rel == "descendant" {
+				h.stepClass = "merge-operand-overlaps-target:" + rel
+			}
+			h.res.Ev("merge_of_config_operand:"+rel, 1)
+			sub = h.copyTree(src.n)
+			h.log = append(h.log, fmt.Sprintf("%s.Merge(handle %s=%s%s)", t.desc, src.desc, sub, polName))
+			err = t.c.Merge(src.c, polOpt...)
+		} else {
+			sub = smallTree(r)
+			h.log = append(h.log, fmt.Sprintf("%s.Merge(%s%s)", t.desc, sub, polName))
+			err = t.c.Merge(sub.ToGo(), polOpt...)
+		}
 		h.res.Eval(1)
 		if err != nil {
 			h.fail("merge-error", "Merge failed: %v", err)
@@ -308,7 +448,7 @@ func (h *hist) step() {
 			h.written(t)
 			firstViaNil = true
 		}
-		h.merge(t.n, sub)
+		h.merge(t.n, sub, pol)
 		h.muts++
 		mutated = true
 		for _, k := range sub.SortedKeys() {
@@ -372,12 +512,19 @@ func (h *hist) step() {
 		if t.c != h.root.c {
 			sig = h.staleClass(t, "state-mismatch-after-write-through-child")
 		}
+		if h.stepClass != "" {
+			sig = h.stepClass
+		}
 		h.fail(sig, "tree differs after step: got %s want %s", got, want)
 		return
 	}
 	if t != h.root && mutated && model.Reachable(h.root.n, t.n) {
 		if why := h.hiddenFromParent(t, mustHave); why != "" {
-			h.fail(h.staleClass(t, "write-through-child-not-visible-in-parent"), "%s", why)
+			sig := h.staleClass(t, "write-through-child-not-visible-in-parent")
+			if h.stepClass != "" {
+				sig = h.stepClass
+			}
+			h.fail(sig, "%s", why)
 			return
 		}
 	}
@@ -395,7 +542,11 @@ func (h *hist) step() {
 			return
 		}
 		if w := x.n.CanonTop(); g != w {
-			h.fail(h.staleClass(x, "child-view-stale"), "handle %s shows %s, the tree holds %s there", x.desc, g, w)
+			sig := h.staleClass(x, "child-view-stale")
+			if h.stepClass != "" {
+				sig = h.stepClass
+			}
+			h.fail(sig, "handle %s shows %s, the tree holds %s there", x.desc, g, w)
 			return
 		}
 	}
@@ -448,6 +599,64 @@ func (x *handle) obtainedThrough(t *handle) bool {
 		}
 	}
 	return false
+}
+
+// lenAt returns the length of the list part of the container addressed by
+// name below n (0 if there is nothing yet); false if name does not lead to a
+// container or is empty.
+func (h *hist) lenAt(n *model.Node, name string) (int, bool) {
+	if name == "" {
+		return len(n.A), n.IsSub()
+	}
+	v, e := model.Get(n, model.ParsePath(name, -1, h.sep))
+	switch {
+	case e == model.EMissing && n.Kind != model.KPrim:
+		return 0, true
+	case e != model.ENone:
+		return 0, false
+	case v.IsSub():
+		return len(v.A), true
+	case v.Kind == model.KNil:
+		return 0, true
+	}
+	return 0, false
+}
+
+// holderLen is the length of the list the index at the end of fs addresses.
+func (h *hist) holderLen(n *model.Node, fs []model.Fld) int {
+	if len(fs) == 1 {
+		return len(n.A)
+	}
+	if v, e := model.Get(n, fs[:len(fs)-1]); e == model.ENone && v.IsSub() {
+		return len(v.A)
+	}
+	return 0
+}
+
+// bigList starts the history with a list of more than 1024 elements at "l"
+// (or as the root's own list part), so that the default maximum index is met.
+func (h *hist) bigList() {
+	n := 1025 + h.r.Intn(3)
+	l := make([]interface{}, n)
+	ln := model.List()
+	for i := range l {
+		l[i] = int64(i)
+		ln.A = append(ln.A, model.P(int64(i)))
+	}
+	var from interface{} = map[string]interface{}{"l": l}
+	fn := model.Dict()
+	fn.D["l"] = ln
+	h.big, h.bigName = true, "l"
+	if h.r.Intn(3) == 0 {
+		from, fn, h.bigName = l, ln, ""
+	}
+	h.log = append(h.log, fmt.Sprintf("root.Merge(list of %d elements, at l: %v)", n, fn != ln))
+	h.res.Ev("histories_with_list_above_1024", 1)
+	if err := h.root.c.Merge(from); err != nil {
+		h.fail("merge-error", "Merge failed: %v", err)
+		return
+	}
+	h.merge(h.root.n, fn, model.PDefault)
 }
 
 // written: the first write through a handle of a nil setting has turned the
@@ -605,7 +814,8 @@ func (h *hist) countAt(t *handle, name string, idx int, at string) {
 		return // CountField("") is the total, compared through the child below
 	}
 	cname, cfs := name, model.ParsePath(name, -1, h.sep)
-	if idx >= 0 && h.sep != "" {
+	if idx >= 0 && idx <= h.maxIdx && h.sep != "" {
+		// (above the maximum index a number in a name is a name, not an index)
 		cname = name + h.sep + strconv.Itoa(idx)
 		cfs = model.ParsePath(cname, -1, h.sep)
 	}
